@@ -9,42 +9,45 @@ import (
 	"scratch/stackmon/mon"
 )
 
-func ForPost(n int) Iter[int] {
+func ForPost(n int, first bool) Iter[int] {
 	for i := 0; i < n; i++ {
 		mon.At(i)
-		if i == n-1 {
+		if i == n-1 || (first && i == 0) {
 			Yield(i)
 		}
 	}
 	return nil
 }
 
-func ForCondProbe(n int) Iter[int] {
+func ForCondProbe(n int, first bool) Iter[int] {
 	for i := 0; mon.Cond(i) && i < n; i++ {
-		if i == n-1 {
+		if i == n-1 || (first && i == 0) {
 			Yield(i)
 		}
 	}
 	return nil
 }
 
-func While(n int) Iter[int] {
+func While(n int, first bool) Iter[int] {
 	i := 0
 	for i < n {
 		mon.At(i)
 		i++
-		if i == n {
+		if i == n || (first && i == 1) {
 			Yield(i)
 		}
 	}
 	return nil
 }
 
-func Infinite(n int) Iter[int] {
+func Infinite(n int, first bool) Iter[int] {
 	i := 0
 	for {
 		mon.At(i)
 		i++
+		if first && i == 1 {
+			Yield(i)
+		}
 		if i >= n {
 			Yield(i)
 			break
@@ -53,9 +56,12 @@ func Infinite(n int) Iter[int] {
 	return nil
 }
 
-func Continue(n int) Iter[int] {
+func Continue(n int, first bool) Iter[int] {
 	for i := 0; i < n; i++ {
 		mon.At(i)
+		if first && i == 0 {
+			Yield(i)
+		}
 		if i < n-1 {
 			continue
 		}
@@ -64,11 +70,14 @@ func Continue(n int) Iter[int] {
 	return nil
 }
 
-func ContinueWhile(n int) Iter[int] {
+func ContinueWhile(n int, first bool) Iter[int] {
 	i := 0
 	for i < n {
 		mon.At(i)
 		i++
+		if first && i == 1 {
+			Yield(i)
+		}
 		if i%2 == 0 {
 			continue
 		}
@@ -79,32 +88,32 @@ func ContinueWhile(n int) Iter[int] {
 	return nil
 }
 
-func RangeInt(n int) Iter[int] {
+func RangeInt(n int, first bool) Iter[int] {
 	for i := range n {
 		mon.At(i)
-		if i == n-1 {
+		if i == n-1 || (first && i == 0) {
 			Yield(i)
 		}
 	}
 	return nil
 }
 
-func RangeSlice(n int) Iter[int] {
+func RangeSlice(n int, first bool) Iter[int] {
 	xs := make([]int, n)
 	for i := range xs {
 		mon.At(i)
-		if i == n-1 {
+		if i == n-1 || (first && i == 0) {
 			Yield(i)
 		}
 	}
 	return nil
 }
 
-func Switch(n int) Iter[int] {
+func Switch(n int, first bool) Iter[int] {
 	for i := 0; i < n; i++ {
 		mon.At(i)
 		switch {
-		case i == n-1:
+		case i == n-1 || (first && i == 0):
 			Yield(i)
 		case i%3 == 0:
 			continue
@@ -113,16 +122,75 @@ func Switch(n int) Iter[int] {
 	return nil
 }
 
-func Nested(n int) Iter[int] {
+func Nested(n int, first bool) Iter[int] {
 	k := 0
 	for a := 0; a*100 < n; a++ {
 		for b := 0; b < 100; b++ {
 			mon.At(k)
 			k++
-			if k == n {
+			if k == n || (first && k == 1) {
 				Yield(k)
 			}
 		}
+	}
+	return nil
+}
+
+// NestedCondInner: the inner loop has no init statement and contains a yield, so the
+// optimiser may build it once and re-run the same loop value for every outer iteration.
+func NestedCondInner(n int, first bool) Iter[int] {
+	r, c := 0, 0
+	for r < n {
+		mon.At(r)
+		for c < 3 {
+			if (r == n-1 && c == 2) || (first && r == 0 && c == 0) {
+				Yield(r)
+			}
+			c++
+		}
+		r++
+		c = 0
+	}
+	return nil
+}
+
+func NestedEndlessInner(n int, first bool) Iter[int] {
+	r, c := 0, 0
+	for {
+		mon.At(r)
+		for {
+			if (r == n-1 && c == 1) || (first && r == 0 && c == 0) {
+				Yield(r)
+			}
+			c++
+			if c > 2 {
+				break
+			}
+		}
+		r++
+		c = 0
+		if r >= n {
+			break
+		}
+	}
+	return nil
+}
+
+func ThreeLevels(n int, first bool) Iter[int] {
+	k, a, b := 0, 0, 0
+	for a*16 < n {
+		for b < 4 {
+			for c := 0; c < 4; c++ {
+				mon.At(k)
+				k++
+				if k == n || (first && k == 1) {
+					Yield(k)
+				}
+			}
+			b++
+		}
+		a++
+		b = 0
 	}
 	return nil
 }
@@ -136,10 +204,10 @@ func Source(n int) Iter[int] {
 	return nil
 }
 
-func Filter(n int) Iter[int] {
+func Filter(n int, first bool) Iter[int] {
 	for v := range Source(n) {
 		mon.At(v)
-		if v == n-1 {
+		if v == n-1 || (first && v == 0) {
 			Yield(v)
 		}
 	}
